@@ -690,6 +690,7 @@ func (fr *frame) makeMap(x *ssa.MakeMap, st *State) {
 	nh := ft.fresh("m", hs)
 	empty := fmt.Sprintf("(mk_%s ((as const (Array %s Bool)) false) ((as const (Array %s %s)) %s) 0)", cell, ks, ks, vs, ft.g.zero(mt.Elem()))
 	ft.fact("(= " + nh + " (store " + h + " " + ref + " " + empty + "))")
+	ft.pendingAlloc = x.Block()
 	ft.stateSet(fr, st, "M|"+cell, hs, nh)
 	fr.vals[x] = Val{T: ref, Ty: x.Type()}
 }
@@ -708,6 +709,10 @@ func (fr *frame) mapUpdate(x *ssa.MapUpdate, st *State, reach string) {
 	nc := fmt.Sprintf("(mk_%s (store (%s.dom %s) %s true) (store (%s.val %s) %s %s) (ite (select (%s.dom %s) %s) (%s.card %s) (+ 1 (%s.card %s))))", cell, cell, cur, k, cell, cur, k, v, cell, cur, k, cell, cur, cell, cur)
 	nh := ft.fresh("m", hs)
 	ft.fact("(= " + nh + " (store " + h + " " + m + " " + nc + "))")
+	if mk, ok := x.Map.(*ssa.MakeMap); ok {
+		// a map created by this function (or an inlined callee): the written cell did not exist at function entry
+		ft.pendingAlloc = mk.Block()
+	}
 	ft.stateSet(fr, st, "M|"+cell, hs, nh)
 }
 
